@@ -91,3 +91,18 @@ fn track_single_level_sum() {
 	assert!(track.temp_buffer[0] == Frame::ZERO && track.temp_buffer[1] == Frame::ZERO);
 	std::mem::forget(track); std::mem::forget(sound_ctrl); std::mem::forget(sub_ctrl2); std::mem::forget(send_ctrl); std::mem::forget(send_tracks); std::mem::forget(clocks); std::mem::forget(modulators); std::mem::forget(listeners); std::mem::forget(_w);
 }
+
+#[kani::proof]
+fn glam_quat_under_kani() {
+	let x: f32 = kani::any();
+	kani::assume(x.is_finite() && x.abs() <= 100.0);
+	let q = Quat::from_xyzw(0.0, 0.0, 0.0, 1.0);
+	let v = q * Vec3::new(x, 0.0, 0.0);
+	assert!(v.x == x && v.y == 0.0 && v.z == 0.0);
+	let (l, r) = listener_ear_positions(Vec3::ZERO, q);
+	assert!(l.x == -0.1 && r.x == 0.1);
+	let d = (Vec3::new(x, 0.0, 0.0) - Vec3::ZERO).length();
+	assert!(d == x.abs());
+	let n = Vec3::ZERO.normalize_or_zero();
+	assert!(n == Vec3::ZERO);
+}
